@@ -1,7 +1,7 @@
 """Program grammar for C12: multi-line Python programs (last line an expression) over config names, context symbols, builtins and
 their own definitions; f-strings; build histories."""
 
-CFG = {'a': 3, 'b': 4, 'lst': [5, 1, 4], 'd': {'x': 7, 'y': 2}, 's': 'txt', 'zero': 0}
+CFG = {'a': 3, 'b': 4, 'lst': [5, 1, 4], 'd': {'x': 7, 'y': 2}, 's': 'txt', 'zero': 0, 'id': 11, 'type': 6}   # 'id' / 'type': config entries named like builtins (the entry wins)
 SYMS = {'k1': 10, 'b': 40, 'tup': {'fn': 'tup'}}          # 'b' is both a symbol and a config entry: the symbol wins
 
 
@@ -10,7 +10,7 @@ class Gen:
         self.rng = rng
         self.cfg = dict(CFG if cfg is None else cfg)
         self.syms = dict(SYMS if syms is None else syms)
-        self.ints = ['a', 'b', 'k1', 'zero']
+        self.ints = ['a', 'b', 'k1', 'zero'] + [n for n in ('id', 'type') if n in self.cfg]
         self.lists = ['lst']
         self.funcs = []
         self.n = 0
